@@ -14,7 +14,8 @@ VARIABLES tid, l, active, expect, fails, mech, owner
 vars == <<tid, l, active, expect, fails, mech, owner>>
 T == Traces[tid]
 S == T.steps[l]
-Init == /\ tid \in 1..Len(Traces) /\ l = 1 /\ active = {} /\ expect = <<>> /\ fails = <<>> /\ mech = State0 /\ owner = <<>>
+Init == /\ tid \in 1..Len(Traces) /\ l = 1 /\ active = {} /\ expect = <<>> /\ fails = <<>> /\ owner = <<>>
+        /\ mech = (IF Traces[tid].inplace THEN InplaceOp(State0, Traces[tid].key) ELSE State0)     \* tooled in place beforehand
         /\ TLCSet(tid, <<0, <<>>>>)
 F(clause, why) == [line |-> l, clause |-> clause, why |-> why, nactive |-> Cardinality(active)]
 \* expect: function probe id -> sequence of values owed
